@@ -61,6 +61,44 @@ def _is_fitness_dir_arg(n: ast.AST) -> bool:
     return False
 
 
+def _printed_stmt(n: ast.AST) -> bool:
+    for a_ in ancestors(n):
+        if isinstance(a_, ast.stmt):
+            return isinstance(a_, ast.Expr) and isinstance(a_.value, ast.Call) and isinstance(a_.value.func, ast.Name) \
+                and a_.value.func.id == "print"
+    return False
+
+
+def _returned_text_only_printed(fi: FuncInfo, n: ast.AST) -> bool:
+    """n sits in the `return <f-string>` of a local closure whose every reference in the enclosing function is a call that is
+    only printed (or sits in a debug block): the direction only shapes a message"""
+    outer = getattr(fi, "outer", None)
+    if outer is None:
+        return False
+    ret = None
+    for a_ in ancestors(n):
+        if isinstance(a_, ast.stmt):
+            ret = a_ if isinstance(a_, ast.Return) else None
+            break
+    if ret is None or not isinstance(ret.value, ast.JoinedStr):
+        return False
+    refs = []
+    stack = [outer]
+    while stack:
+        f = stack.pop()
+        refs.extend(m for m in own_nodes(f) if isinstance(m, ast.Name) and m.id == fi.name and isinstance(m.ctx, ast.Load))
+        stack.extend(f.nested.values())
+    if not refs:
+        return False
+    for r in refs:
+        c = parent(r)
+        if not (isinstance(c, ast.Call) and c.func is r):
+            return False
+        if not (_printed_stmt(c) or _in_debug_block(c) and _printed_stmt(c)):
+            return False
+    return True
+
+
 def _sink_ok(prog: Program, resolver: Resolver, fi: FuncInfo, n: ast.AST, depth: int = 3) -> tuple:
     """Is the use `n` (an expression carrying the direction) an allowed sink?  -> (ok, why)"""
     q = fi.qualname
@@ -78,6 +116,8 @@ def _sink_ok(prog: Program, resolver: Resolver, fi: FuncInfo, n: ast.AST, depth:
             break
     if _is_fitness_dir_arg(n):
         return True, "direction argument of calculate_fitness"
+    if _returned_text_only_printed(fi, n):
+        return True, "text returned by a local helper that is only printed"
     p = parent(n)
     if isinstance(p, ast.keyword) and p.arg == "task_type":
         pp = parent(p)
@@ -166,6 +206,8 @@ def run(prog: Program, res: Result) -> None:
                          and a_.value.func.id == "print" for a_ in ancestors(n) if isinstance(a_, ast.stmt)):
                     ok = True       # only printed
                 elif isinstance(fi.node.returns, ast.AST) and any(x is n for x in ast.walk(fi.node.returns)):
+                    ok = True
+                elif _returned_text_only_printed(fi, n):
                     ok = True
                 else:
                     why = f"TaskType referenced in {fi.qualname}"
